@@ -175,6 +175,11 @@ def run(report, db, tier):
         arms.setdefault(shared.arm_of(p, pk), []).append(p)
     sub = _Sub(report, R4)
     c10.encryption_arm(sub, db, M, P, react, arms)
+    R4f = report.rule('R18.4f', 'secrets reach the server in the clear '
+                      'frame: the forced write that precedes the '
+                      'installation is synchronous')
+    shared.forced_write_is_synchronous(
+        report, R4f, db, shared.summariser(db, cg), M)
     R5 = report.rule('R18.5', 'wrappers are single pass-through updates '
                      '(continuous stream, any segmentation)')
     shared.wrapper_passthrough_ps(report, R5, db)
